@@ -45,6 +45,10 @@ CHECKS = {
          "(a) Responses built through the public API over all modelled status codes x header lists of size 0..2 (3) incl. repeated names, all 256 Set-Cookie attribute combinations and 33/40-field sets x bodies {0,1,5,8192(,65536)} are serialised, checked against RFC 7230 syntax (status line with a registered reason phrase in RFC 2616/7231/9110 wording, one line per field, blank line, body) and parsed back. (b) Wire responses for every status x {Content-Length, chunked under every composition of bodies <=6 bytes into chunks, lower/upper-case hex sizes, a 200-byte body in 10..16-byte chunks} are parsed under every read plan (whole, bytewise, every single cut; pairs in thorough) and must return exactly status, headers and payload (chunked reported as plain body + Content-Length). (c) The real Client follows every redirect chain of length 0..3 (4) over {301,302,307} x {relative, absolute Location} against a scripted server on 127.0.0.1:80 and must end at the final response having issued exactly the chain's requests.",
          "Trusted: strict head parser and chunk renderer in the check. (c) uses real loopback TCP because the client is not routed through the facade (needs to bind port 80; skipped with a recorded cap if that fails). Known finding: the CRLF appended after non-empty bodies (pinned by the repository's tests).",
          "DESIGN.md §3 C07"),
+ "C03": ("E2-enum", "bounded-exhaustive enumeration of byte strings, truncations and single-edit mutants, run in isolated worker processes under a counting allocator",
+         "For each of the six parsers (HTTP request, HTTP response, WebSocket frame, WebSocket message via recv and recv_nonblocking, JSON, configuration): every string of <=5 (6) symbols over a 10-18 symbol protocol alphabet (~1.1*10^5 (1.1*10^6) each, config strings also inside a `server {` section and in value position), every prefix of every seed message, every single-edit mutant of every seed (delete, duplicate, replace by each alphabet symbol), a 2-byte character, a 4-byte character and invalid UTF-8 inserted at every position, every length field (Content-Length, chunk size, 16/64-bit frame lengths) replaced by boundary and huge values, nesting to 100000 levels, 2000 header lines, 200 KB lines; each delivered whole and byte-by-byte. Oracle per case: the call returns (panic caught and classified by source file), the worker process survives (abort, SIGSEGV/stack overflow, exit by the allocator cap and a 20 s no-progress watchdog are attributed to the exact case through a shared progress record and the worker is restarted after it), at most 100000 reads at end of input, and peak live allocation <= 64*|input| + 1 MiB.",
+         "Trusted: counting GlobalAlloc wrapper (single allocation above 16x the bound ends the worker with exit 77 instead of being attempted). JSON and config parsers take &str so non-UTF-8 input cannot reach them. Random byte strings are deliberately not used (sampling).",
+         "DESIGN.md §3 C03"),
 }
 NOT_YET = {}
 
